@@ -464,12 +464,24 @@ func runC04(c *Ctx) {
 	r.Doc("L2", "two batches are always separated by the delay (typestate over the outer loop)", 1)
 	r.Doc("L3", "sleep amount = Interval - elapsed, clock read before the batch and after it", 1)
 	r.Doc("L4", "the output buffer is no larger than 1+cap(Input): a stalled consumer cannot collect a burst beyond what the input buffer already allows", 1)
+	r.Doc("L6", "(= C13 V0, V7) a rate re-expressed by Recalculate/Optimize/Flatten is the recognised floor: never faster than the rate it was made from", 2)
 	lr := resolveLimit(c, "L1")
 	if lr == nil {
 		return
 	}
 	p := lr.p
 	limitBatchLoop(c, lr, "L1")
+	// L6: the limit the discipline is given is often the output of Optimize(); a conversion that
+	// rounds up hands the discipline a faster rate than the one the user specified
+	{
+		sub := &Ctx{V1: c.V1, V2: c.V2, Tier: c.Tier, R: NewReport("tmp", c.Tier)}
+		runC13(sub)
+		for _, o := range sub.R.Obls {
+			if o.Rule == "V7" || (o.Rule == "V0" && !o.OK) {
+				r.Check(o.OK, "L6", o.Key, o.Site, o.Detail, o.Detail)
+			}
+		}
+	}
 	fn := lr.batch
 	// one write per received element (reuse item flow) and no other writer
 	cfg := &ItemFlowConfig{
